@@ -28,14 +28,14 @@ RULE = ("one logical dataset per case (n<=30, 2..4 groups, optional control feat
         "with a non-default index among the variant's arguments.")
 ASSUMPTIONS = ["X only as ndarray or DataFrame (the documented types)", "deterministic exact base learners", "values compared with tolerance 1e-12"]
 VEC = ["list", "ndarray", "col", "series", "df", "df_named"]
-APIS = ["metricframe", "fairness", "moments", "eg", "grid", "threshold", "permute", "relabel"]
+APIS = ["metricframe", "metricframe2", "fairness", "moments", "eg", "grid", "threshold", "permute", "relabel"]
 
 
 def cases(tier, seed):
     k = 30 if tier == "quick" else 1000
     out = []
     for api in APIS:
-        mult = {"metricframe": 3, "fairness": 2, "moments": 3, "threshold": 3, "eg": 1, "grid": 1, "permute": 2, "relabel": 2}[api]
+        mult = {"metricframe": 3, "metricframe2": 2, "fairness": 2, "moments": 3, "threshold": 3, "eg": 1, "grid": 1, "permute": 2, "relabel": 2}[api]
         out += [(api, i) for i in range(k * mult)]
     return out
 
@@ -127,6 +127,15 @@ def api_metricframe(d, args):
     return out
 
 
+def api_metricframe2(d, args):
+    """Two sensitive features: the cells are keyed by the value tuple in the order the caller listed the columns."""
+    from fairlearn.metrics import MetricFrame, count, selection_rate
+
+    mf = MetricFrame(metrics={"sel": selection_rate, "n": count}, y_true=args["y"], y_pred=args["p"], sensitive_features=args["g2"],
+                     sample_params={"sel": {"sample_weight": args["w"]}})
+    return {"by_group": canon(mf.by_group), "overall": canon(mf.overall), "difference": canon(mf.difference()), "group_min": canon(mf.group_min())}
+
+
 def api_fairness(d, args):
     import fairlearn.metrics as M
 
@@ -209,11 +218,12 @@ def api_threshold(d, args):
     return out
 
 
-API = {"metricframe": api_metricframe, "fairness": api_fairness, "moments": api_moments, "eg": api_eg, "grid": api_grid, "threshold": api_threshold}
+API = {"metricframe": api_metricframe, "metricframe2": api_metricframe2, "fairness": api_fairness, "moments": api_moments, "eg": api_eg, "grid": api_grid, "threshold": api_threshold}
 # accepted container kinds per argument and API
 KINDS = {
     "metricframe": {"y": VEC, "p": VEC, "w": ["list", "ndarray", "series"], "g": ["list", "ndarray", "series", "df_named", "dict", "col"], "c": ["list", "ndarray", "series", "df_named", "dict"]},
     "fairness": {"y": VEC, "p": VEC, "w": ["list", "ndarray", "series"], "g": ["list", "ndarray", "series", "df_named", "dict"]},
+    "metricframe2": {"y": VEC, "p": VEC, "w": ["list", "ndarray", "series"], "g2": ["ndarray2d", "df2", "dict2"]},
     "moments": {"y": VEC, "g": ["list", "ndarray", "series", "df", "df_named"], "c": ["list", "ndarray", "series", "df", "df_named"], "X": ["ndarray", "Xdf"]},
     "eg": {"y": VEC, "g": ["list", "ndarray", "series", "df", "df_named"], "c": ["list", "ndarray", "series", "df_named"], "X": ["ndarray", "Xdf"]},
     "grid": {"y": VEC, "g": ["list", "ndarray", "series", "df", "df_named"], "c": ["list", "ndarray", "series", "df_named"], "X": ["ndarray", "Xdf"]},
@@ -243,6 +253,7 @@ def make_data(rng, api):
          "kind": gen.pick(rng, RM.PARITY), "constraints": [TL.CONSTRAINTS[i] for i in rng.permutation(len(TL.CONSTRAINTS))[:3]] + ["equalized_odds"],
          "grid_size": int(gen.pick(rng, [5, 10, 100])), "flip": bool(rng.random() < 0.5),
          # EG: the default nu=None (derived from the data) and runs without the LP step, where the stopping iteration is sensitive
+         "g_second": [["p", "q"][i] for i in rng.integers(0, 2, size=n)], "g2": True, "g2_names": gen.pick(rng, [["sex", "race"], ["zeta", "alpha"], ["b", "a"]]),
          "eg_nu": gen.pick(rng, [1e-6, None, None]), "eg_lp": bool(rng.random() < 0.5), "eg_eps": float(gen.pick(rng, [0.1, 0.05])),
          "eg_max_iter": int(gen.pick(rng, [6, 12, 25]))}
     if api == "threshold":
@@ -264,6 +275,19 @@ def build_args(rng, api, d, baseline):
                 ik = gen.pick(rng, [k for k in gen.INDEX_KINDS if k != "range"])
                 args[arg] = pd.DataFrame(d["X"], columns=["f0", "f1"], index=gen.hostile_index(d["n"], ik, rng))
                 hostile = True
+            kinds[arg] = kind
+            continue
+        if arg == "g2":
+            kind = "ndarray2d" if baseline else gen.pick(rng, allowed)
+            cols = [d["g"], d["g_second"]]
+            nm = d["g2_names"]   # column names in the caller's order, deliberately not alphabetical
+            if kind == "ndarray2d":
+                args[arg] = np.column_stack([np.asarray(c_, dtype=object) for c_ in cols])
+            elif kind == "df2":
+                args[arg] = pd.DataFrame({nm[0]: cols[0], nm[1]: cols[1]}, index=gen.hostile_index(d["n"], gen.pick(rng, [k for k in gen.INDEX_KINDS if k != "range"]), rng))
+                hostile = True
+            else:
+                args[arg] = {nm[0]: np.asarray(cols[0]), nm[1]: list(cols[1])}
             kinds[arg] = kind
             continue
         kind = "ndarray" if baseline else gen.pick(rng, allowed)
